@@ -19,8 +19,8 @@ SPACE = [
     ("contraction", ["segmented", "SP", "gen-ss", "gen-pd", "3-primitives"]),
     ("shell_order", ["grouped", "reversed", "interleaved", "rotated", "perm2", "perm3", "skip-first-center"]),
     ("conventions", ["own", "fchk", "molden", "wfn", "mwfn", "horton2", "cca", "orca", "scr1", "scr2"]),
-    ("mo", ["restricted", "rohf", "rohf-triplet", "beta-hole", "fractional", "aminusb", "aminusb-neg", "unrestricted", "unrestricted-na>nb", "occupied-only", "irreps", "unrestricted-occupied-only"]),
-    ("extras", ["none", "rdm-scf", "rdm-scf+spin", "rdm-post", "energy-none", "title-none", "atcharges"]),
+    ("mo", ["restricted", "rohf", "rohf-triplet", "beta-hole", "fractional", "aminusb", "aminusb-neg", "aminusb-zero", "unrestricted", "unrestricted-na>nb", "occupied-only", "irreps", "unrestricted-occupied-only"]),
+    ("extras", ["none", "rdm-scf", "rdm-scf+spin", "rdm-post", "energy-none", "title-none", "atcharges", "mo_spin"]),
 ]
 
 CENTER_Z = [8, 1, 1, 6, 7, 3]
@@ -182,6 +182,9 @@ def build(case, target, seed=0):
         elif mokind == "aminusb-neg":  # more beta than alpha electrons
             occs = np.array(([2.0, 1.5, 0.5] + [0.0] * norb)[:norb])
             am = np.array(([0.0, -0.5, -0.5] + [0.0] * norb)[:norb])
+        elif mokind == "aminusb-zero":  # spin-averaged open shell: integer occupations with an explicit, all-zero alpha-minus-beta
+            occs = np.array(([2.0, 1.0, 1.0] + [0.0] * norb)[:norb])
+            am = np.zeros(norb)
         irreps = np.array([f"{i + 1}a" for i in range(norb)]) if mokind == "irreps" else None
         mo = MolecularOrbitals("restricted", norb, norb, occs, c, energies, irreps, am)
     kw = dict(atnums=z, atcoords=xyz, obasis=obasis, mo=mo, energy=-76.25, title="generated wavefunction")
@@ -208,6 +211,8 @@ def build(case, target, seed=0):
         kw["one_rdms"] = rd
     elif ex == "atcharges":
         kw["atcharges"] = {"mulliken": np.linspace(-0.5, 0.5, ncenter)}
+    elif ex == "mo_spin":  # the Multiwfn $MOSPIN labels a WFN reader stores in extra
+        kw["extra"] = {"mo_spin": np.array([3] * mo.norba) if mo.kind == "restricted" else np.array([1] * mo.norba + [2] * mo.norbb)}
     data = IOData(**kw)
     return data, {"nbasis": nb, "ncenter": ncenter}
 
